@@ -125,7 +125,7 @@ namespace dllexports
     {
         auto actual = reinterpret_cast<instance*>(in);
 
-        if (actual->seq[0] == 'S' && actual->seq[1] == 'Q' && actual->seq[2] == 'F' && actual->seq[3] == 'E')
+        if (actual && actual->seq[0] == 'S' && actual->seq[1] == 'Q' && actual->seq[2] == 'F' && actual->seq[3] == 'E')
         {
             actual->seq[0] = '\0';
             actual->seq[1] = '\0';
